@@ -196,3 +196,35 @@ package interp
 //@   loop 2
 //@   invariant constraints-evaluated-in-the-given-context: sameTags(ctx)
 //@   canary !ok
+
+// Where selection is applied.  parse: a source is handed to the Go parser only after buildOk accepted it
+// in the interpreter's context under the file's name, and the tags of its comments are added only then;
+// a rejected source yields no tree and no error.  importSrc: a file is read and parsed only if skipFile,
+// asked with the interpreter's context, the bare file name and the caller's test flag, did not skip it.
+//@ func (interp *Interpreter) parse(src, name, inc) (root, err)
+//@   props C17
+//@   opt safety = off
+//@   opt opaque-calls = *
+//@   opt opaque-havoc = none
+//@   opt record-calls = buildOk
+//@   opt ignore-contracts = buildOk, setYaegiTags
+//@   opt call-guard:ParseFile = called(buildOk) && lastRes(buildOk, 0) && lastRes(buildOk, 1) == nil && lastArg(buildOk, 0) == &interp.context && lastArg(buildOk, 1) == name && arg(1) == name
+//@   opt call-guard:setYaegiTags = called(buildOk) && lastRes(buildOk, 0) && lastRes(buildOk, 1) == nil && arg(0) == &interp.context
+//@   requires [assume] interp != nil
+//@   requires [C11!] parsed-under-current-source-name: name == interp.name
+//@   ensures rejected-source-yields-nothing: called(buildOk) && !lastRes(buildOk, 0) ==> root == nil && err == lastRes(buildOk, 1)
+//@   ensures constraints-always-consulted: called(buildOk)
+//@   canary root == nil
+
+//@ lit Interpreter.importSrc for:files () ()
+//@   props C17
+//@   opt safety = off
+//@   opt opaque-calls = *
+//@   opt opaque-havoc = none
+//@   opt record-calls = skipFile
+//@   opt ignore-contracts = skipFile
+//@   opt call-guard:ReadFile = called(skipFile) && !lastRes(skipFile, 0) && lastArg(skipFile, 0) == &interp.context && lastArg(skipFile, 1) == file.Name() && lastArg(skipFile, 2) == skipTest
+//@   opt call-guard:parse = called(skipFile) && !lastRes(skipFile, 0)
+//@   requires [assume] interp != nil && file != nil
+//@   ensures every-file-is-asked: called(skipFile)
+//@   canary err == nil
